@@ -6,6 +6,7 @@ import (
 	"bytes"
 	"fmt"
 	"io"
+	"runtime"
 	"strings"
 	"testing"
 
@@ -20,7 +21,7 @@ import (
 func TestMain(m *testing.M) {
 	kit.Register("convert", convertOracle)
 	kit.Describe("case = (configuration, source) drawn from token soup / line-structured soup / repository test inputs and their mutations / k-fold nesting / exhaustive short strings; non-trivial = the parsed tree has >= 2 distinct block kinds or a non-Text inline node, or the source contains a byte >= 0x80, NUL or CR; distinct by hash of (configuration, source)",
-		"sizes up to 16 KiB per document", "termination is judged by a 30 s in-process watchdog and a 120 s isolated re-run")
+		"sizes up to 16 KiB per document", "termination is judged by a 30 s in-process watchdog and a 120 s isolated re-run", "deep-nesting documents additionally must not allocate more than 1 GiB per conversion (memory exhaustion is a crash)")
 	kit.Main(m, "C01")
 }
 
@@ -36,8 +37,21 @@ func convertOracle(c *kit.Case) error {
 		_ = md.Convert(src, &failingWriter{left: int(k) - 1})
 	}
 	var b1 bytes.Buffer
+	var m0, m1 runtime.MemStats
+	if c.Ints["membound"] != 0 {
+		runtime.ReadMemStats(&m0)
+	}
 	if err := md.Convert(src, &b1); err != nil {
 		return kit.Violf("convert-error", "Convert returned %v", err)
+	}
+	if c.Ints["membound"] != 0 {
+		// "no input can crash the library": running out of memory is a crash no recover() catches. A conversion of
+		// at most 16 KiB that allocates more than a gibibyte (ordinary documents of that size need a few megabytes)
+		// is on its way there - the bound is five orders of magnitude above the input size
+		runtime.ReadMemStats(&m1)
+		if d := m1.TotalAlloc - m0.TotalAlloc; d > 1<<30 && len(src) <= 16384 {
+			return kit.Violf("memory-blowup", "converting %d bytes allocated %d MiB", len(src), d>>20)
+		}
 	}
 	doc := md.Parser().Parse(text.NewReader(src))
 	lastDoc = doc
@@ -120,7 +134,14 @@ func TestNest(t *testing.T) {
 	kit.Rapid(t, "nest", 3000, 120000, func(t *rapid.T) {
 		cfg := gen.DrawConfig(t, gen.ConfigOpts{})
 		src := gen.Nest(t, gen.Any, 16384, "n")
-		run(t, cfg, src, "nest")
+		c := kit.NewCase("convert", cfg.String()).B("src", src).I("membound", 1)
+		lastDoc = nil
+		if kit.Check(t, c) {
+			kit.R.Class("gen:nest")
+			if nontrivial(src, lastDoc) {
+				kit.R.NonTrivial(c)
+			}
+		}
 	})
 }
 
